@@ -2,11 +2,16 @@ package telemetry
 
 import (
 	"context"
+	"sort"
+	"strings"
 
 	"github.com/hyperledger/fabric-chaincode-go/shim"
 	"go.opentelemetry.io/otel/propagation"
 	"go.opentelemetry.io/otel/trace"
 )
+
+// baggageHeader is the carrier key of the W3C baggage propagator.
+const baggageHeader = "baggage"
 
 type TraceContext struct {
 	ctx       context.Context
@@ -86,6 +91,16 @@ func (th *TracingHandler) RemoteCarrier(traceCtx TraceContext) propagation.MapCa
 	}
 
 	th.Propagators.Inject(traceCtx.remoteCtx, carrier)
+
+	// The carrier becomes part of the pending record, i.e. of the write-set every endorsing peer must
+	// produce byte for byte. The baggage propagator joins the members in map order, which differs
+	// from run to run: store them in sorted order.
+	if v := carrier.Get(baggageHeader); v != "" {
+		members := strings.Split(v, ",")
+		sort.Strings(members)
+		carrier.Set(baggageHeader, strings.Join(members, ","))
+	}
+
 	return carrier
 }
 
